@@ -545,6 +545,11 @@ def run_d(ck, w, prop, floors):
                   f'{r["fn"]}: `{r["place"]}` was assigned in every arm of an if/else inside a loop ({r["sites"]} site(s)) and is now assigned in only some arms '
                   f'({have} symmetric site(s)): on the other arm the next iteration sees a stale value', hirq.fn_loc(f))
     ck.count(f'{P}.D9 places', len(rows9))
+    # ------------------------------------------------------------------ D11
+    from ..engines import ziplint
+    ck.rule(f'{P}.D11', 'zip-truncated comparisons: an equality / identity decision taken over `a.iter().zip(b.iter()).all(..)` also compares the lengths of a and b '
+                        '(or both are fixed-size arrays); tabled sites: tables.ZIP_EQ_OK')
+    ziplint.check(ck, w, f'{P}.D11', CRATES, lambda file: file.startswith(SCOPES[prop]), tables.ZIP_EQ_OK, 0)
     # ------------------------------------------------------------------ D10
     ck.rule(f'{P}.D10', 'shortcut returns stay guarded: for each early `return <value>` of rules/retcover.json, every parameter that the returned value or the '
                         'conditions guarding that return depended on (reference tree) still does.  A shortcut whose guard forgets one operand (a multiplying '
